@@ -249,6 +249,9 @@ class RecInterp(itereval.IterInterp):
             self.calls.append((name.split("::<")[0], tuple(args)))
             return self.scripted[name.split("::<")[0]](self, *args)
         base = name.split("::<")[0]
+        if base.split("::")[-1] in ("min", "max") and len(args) == 2 and all(isinstance(a_, int) and not isinstance(a_, bool) for a_ in args) and \
+                (len(base.split("::")) == 1 or base.split("::")[-2] in ("isize", "usize", "i64", "u64", "i32", "u32", "cmp", "Ord")):
+            return min(args) if base.endswith("min") else max(args)
         if base.startswith("Self::") and base.count("::") == 1 and base[6:] in self.fns and len(self.fns[base[6:]]) == 1:
             fn_ = self.fns[base[6:]][0]
             if not (fn_["sig"]["inputs"] and fn_["sig"]["inputs"][0]["t"] == "Receiver"):
@@ -298,6 +301,8 @@ class RecInterp(itereval.IterInterp):
         return super().equal(a, b, node)
 
     def method(self, recv, name, targs, args, node):
+        if isinstance(recv, int) and not isinstance(recv, bool) and name in ("min", "max") and len(args) == 1 and isinstance(args[0], int):
+            return min(recv, args[0]) if name == "min" else max(recv, args[0])
         if isinstance(recv, MapV) and name == "entry" and len(args) == 1:
             return EntryV(recv, args[0])
         if isinstance(recv, EntryV):
